@@ -42,6 +42,9 @@ func main() {
 	repl := map[string]string{}
 	for _, pkg := range flag.Args() {
 		dir := filepath.Join(*repo, pkg)
+		if filepath.IsAbs(pkg) {
+			dir = pkg // a package outside the repo (module cache)
+		}
 		ents, err := os.ReadDir(dir)
 		if err != nil {
 			fmt.Fprintln(os.Stderr, err)
